@@ -41,8 +41,22 @@ pub enum ArchiveFault {
     Empty,
 }
 
+#[derive(Clone, Copy, Debug, PartialEq, Serialize, Deserialize, Default)]
+pub enum Spelling {
+    /// the bare file name, relative to the working directory
+    #[default]
+    Bare,
+    /// ./name
+    DotSlash,
+    /// absolute path
+    Absolute,
+}
+
 #[derive(Clone, Debug, Serialize, Deserialize)]
 pub struct C19Plan {
+    /// how the input file (compress) and the archive (decompress) are spelled on the command line
+    #[serde(default)]
+    pub spelling: Spelling,
     pub content: Content,
     pub name: String,
     pub level: Level,
@@ -117,13 +131,20 @@ impl Engine for C19 {
     }
     fn gen(&self, seed: u64, _index: u64, _tier: Tier) -> C19Plan {
         let mut r = Rng::new(seed);
-        let len = match r.below(6) {
+        let len = match r.below(7) {
+            // the block encoder's literal size-format thresholds
+            6 => *r.pick(&[1023usize, 1024, 1025, 16383, 16384, 16385, 262143, 262144]),
             0 => *r.pick(&[0usize, 1, 2, 100]),
             1 => *r.pick(&[131071usize, 131072, 131073, 262144]),
             2 => r.size_log(1 << 20),
             _ => r.size_log(60_000),
         };
-        let content = crate::content::gen_content_len(&mut r, len);
+        let content = if r.chance(1, 4) {
+            // Huffman-compressible, practically match-free: all bytes end up as literals of one block
+            Content::Alphabet { symbols: *r.pick(&[16u16, 40, 64, 100]), len, seed: r.next_u64() }
+        } else {
+            crate::content::gen_content_len(&mut r, len)
+        };
         let name = r.pick(&["data.bin", "a.b.c.txt", "noext", "archive.tar", "x.zst", "sp ace.dat", ".hidden"]).to_string();
         let level = match r.below(12) {
             0..=3 => Level::Absent,
@@ -163,7 +184,7 @@ impl Engine for C19 {
             2 => *r.pick(&[ArchiveFault::Garbage, ArchiveFault::Empty]),
             _ => ArchiveFault::None,
         };
-        C19Plan { content, name, level, compress_out, pre, decompress_out: if r.chance(1, 2) { None } else { Some("restored.out".to_string()) }, archive_fault }
+        C19Plan { spelling: *r.pick(&[Spelling::Bare, Spelling::Bare, Spelling::DotSlash, Spelling::Absolute]), content, name, level, compress_out, pre, decompress_out: if r.chance(1, 2) { None } else { Some("restored.out".to_string()) }, archive_fault }
     }
 
     fn exec(&self, plan: &C19Plan, stats: &mut Stats, log: Option<&mut Vec<Value>>) -> Result<RunOutcome, HarnessError> {
@@ -192,7 +213,13 @@ impl Engine for C19 {
         if plan.pre == Pre::OutputExists {
             std::fs::write(&out_path, OLD).map_err(|e| HarnessError(e.to_string()))?;
         }
-        let mut args = vec!["compress".to_string(), plan.name.clone()];
+        let spell = |dir: &Path, name: &str| match plan.spelling {
+            Spelling::Bare => name.to_string(),
+            Spelling::DotSlash => format!("./{name}"),
+            Spelling::Absolute => dir.join(name).to_string_lossy().to_string(),
+        };
+        stats.inc(&format!("spelling.{:?}", plan.spelling));
+        let mut args = vec!["compress".to_string(), spell(&dir, &plan.name)];
         if let Some(o) = &plan.compress_out {
             args.push(o.clone());
         }
@@ -299,7 +326,7 @@ impl Engine for C19 {
                             let aname = Path::new(&out_rel).file_name().map(|s| s.to_string_lossy().to_string()).unwrap_or_else(|| "a.zst".into());
                             let apath = outdir.join(&aname);
                             std::fs::write(&apath, &arch).map_err(|e| HarnessError(e.to_string()))?;
-                            let mut dargs = vec!["decompress".to_string(), aname.clone()];
+                            let mut dargs = vec!["decompress".to_string(), spell(&outdir, &aname)];
                             if let Some(o) = &plan.decompress_out {
                                 dargs.push(o.clone());
                             }
@@ -375,6 +402,9 @@ impl Engine for C19 {
         for c in plan.content.shrunk() {
             out.push(C19Plan { content: c, ..plan.clone() });
         }
+        if plan.spelling != Spelling::Bare {
+            out.push(C19Plan { spelling: Spelling::Bare, ..plan.clone() });
+        }
         if plan.name != "data.bin" {
             out.push(C19Plan { name: "data.bin".into(), ..plan.clone() });
         }
@@ -392,7 +422,7 @@ impl Engine for C19 {
 
     fn rule(&self) -> String {
         "one run = one scenario executed by the real ruzstd-cli binary in a fresh scratch directory: file content (0 B ... 1 MiB, block-size boundaries) x file name (several extensions, none, spaces, \
-         leading dot) x level option (absent / 0 / 1 / 2-4 / 5, 9, 255 / 256, 1000 / non-numeric) x explicit or defaulted output path x file-system pre-state (normal, missing input, input is a \
+         leading dot) x path spelling (bare name, ./name, absolute) x level option (absent / 0 / 1 / 2-4 / 5, 9, 255 / 256, 1000 / non-numeric) x explicit or defaulted output path x file-system pre-state (normal, missing input, input is a \
          directory, output directory missing, output's parent is a regular file, output path is a directory, output already exists, /dev/full as probe) followed, when compress succeeded, by decompress \
          (explicit or defaulted output, in another working directory) of the archive as written or truncated / bit-flipped / replaced by garbage / emptied. All runs are non-trivial (two processes); \
          distinct = distinct plan hash."
@@ -433,6 +463,9 @@ impl Engine for C19 {
             "fault.archive_garbage",
             "probe.damaged_archive_reported_by_exit_status",
             "probe.default_output_is_the_archive",
+            "spelling.Bare",
+            "spelling.DotSlash",
+            "spelling.Absolute",
         ]
     }
     fn coverage_measure(&self) -> (&'static str, &'static str) {
